@@ -16,7 +16,7 @@ class FPInvariant:
     def __init__(self, tier='quick', part=0, nparts=1):
         self.tier, self.part, self.nparts = tier, part, nparts
         self.name = 'fp:invariant:%d/%d' % (part, nparts)
-        self.cap = 60
+        self.cap = 300      # idle: seconds per query; the margin is for a loaded machine
         cells = []
         for kind in POS:
             us = si.units_of(kind)
